@@ -83,6 +83,43 @@ def run(ctx):
                             max_asym = max(max_asym, abs(x - y) / big)
                             if abs(x - y) > 1e-10 * big or (x == 0.0) != (y == 0.0):
                                 ctx.violation('symmetry', 'inferred affinity of layer %d is not symmetric: w(%d,%d)=%r w(%d,%d)=%r' % (a, k, q, x, q, k, y), {'case': cases[c]})
+    # ---- the same through the command line front end: the four undirected selections (with / without --assortative, with / without --w)
+    import os, cli, files
+    wd = vf.workdir()
+    nb = 0
+    for k in range(ctx.budget(12, 160)):
+        sub = rng.fork('b%d' % k)
+        e = cli.int_recs(sub, nmax=5, lmax=2, recmax=8)
+        recs2, nflip = flip_some(sub, e['recs'])
+        assort, from_file = bool(k & 1), bool(k & 2)
+        K, L = sub.rint(2, 3), e['L']
+        d = os.path.join(wd, 'rev%d' % k)
+        os.makedirs(d)
+        open(os.path.join(d, 'a.dat'), 'wb').write(files.render_adjacency(sub, e['recs'], 'plain')[0])
+        open(os.path.join(d, 'b.dat'), 'wb').write(files.render_adjacency(sub, recs2, 'plain')[0])
+        args = ['--k', str(K), '--s', str(sub.below(1000)), '--maxit', '12', '--r', '2', '--undirected'] + (['--assortative'] if assort else [])
+        if from_file:
+            open(os.path.join(d, 'w.dat'), 'wb').write(files.render_affinity(sub, K, L, [[round(sub.unit(), 3) for _ in range(K)] for _ in range(L)], 'plain')[0])
+            args += ['--w', 'w.dat']
+        rc1, o1 = vf.run_cli(ctx.bdir, ['--a', 'a.dat', '--o', 'oa'] + args, d)
+        rc2, o2 = vf.run_cli(ctx.bdir, ['--a', 'b.dat', '--o', 'ob'] + args, d)
+        nb += 1
+        n_eval += 1
+        keys.add(('cli', assort, from_file))
+        fa, fb = files.read_result_files(os.path.join(d, 'oa')), files.read_result_files(os.path.join(d, 'ob'))
+        strip = lambda f: {n: [r for r in rows if r[:2] != ['#', 'Duration']] for n, rows in f.items()}
+        bad = None
+        if (rc1 == 0) != (rc2 == 0):
+            bad = 'one of the two runs fails (exit %s vs %s)' % (rc1, rc2)
+        elif rc1 == 0 and strip(fa) != strip(fb):
+            bad = 'result files differ: ' + ', '.join(n for n in fa if strip(fa).get(n) != strip(fb).get(n))
+        elif rc1 == 0 and 'v_out.dat' in fa:
+            bad = 'an in-membership file is written for an undirected run'
+        if bad:
+            ctx.violation('reversal-cli', 'command line, undirected%s%s: writing %d record(s) in the other orientation changes the results: %s' % (
+                ' assortative' if assort else '', ' with --w' if from_file else '', nflip, bad),
+                {'args': args, 'file': open(os.path.join(d, 'a.dat')).read(), 'reversed_file': open(os.path.join(d, 'b.dat')).read()})
+    ctx.extra['binary_pairs'] = nb
     ctx.oracle.update({'evaluations': n_eval, 'distinct_nontrivial': len(keys), 'max_relative_asymmetry_observed': max_asym,
                        'rule': 'triples of undirected implementation runs (general/assortative, random/user-supplied affinity, self-loops, pairs listed in both orientations): original, a random admissible subset of records reversed (bit equality of everything), and the original with NaN/1e300 sentinels in the in-membership argument (returned untouched, nothing else changes); symmetry of the inferred affinity from the random start within 1e-10. distinct = (assortative, user-supplied, some record reversed, r > 1)'})
     ctx.samples = [{'case': cases[0][:300], 'reversed': cases[1][:300]}]
